@@ -86,17 +86,28 @@ impl ContentEncoding {
     /// The ContentEncoding specified by the tag, or None if no tag present or invalid encoding.
     /// Callers must handle None and reject events without valid encoding tags.
     pub fn from_tags<'a>(tags: impl Iterator<Item = &'a nostr::Tag>) -> Option<Self> {
+        let mut found = None;
         for tag in tags {
             let slice = tag.as_slice();
-            if slice.len() >= 2
-                && slice[0] == "encoding"
-                && let Some(encoding) = Self::from_tag_value(&slice[1])
-            {
-                return Some(encoding);
+            if !slice.is_empty() && slice[0] == "encoding" {
+                // SECURITY: every encoding tag must carry a recognised value. An event that
+                // also carries an unrecognised (or empty) encoding tag is ambiguous and is
+                // refused, not read with whichever tag happens to be valid.
+                if slice.len() < 2 {
+                    return None;
+                }
+                match Self::from_tag_value(&slice[1]) {
+                    Some(encoding) => {
+                        if found.is_none() {
+                            found = Some(encoding);
+                        }
+                    }
+                    None => return None,
+                }
             }
         }
         // SECURITY: No default - encoding tag must be present per MIP-00/MIP-02
-        None
+        found
     }
 }
 
